@@ -172,6 +172,8 @@ theorem schedule_none (e e' : Exec) (p b : Bool) (h : e.schedule p = .ok (e', b)
       obtain ⟨y, hy, hfy⟩ := bind_eq_ok hxf
       rw [hf y _ hfy, hx y hy]
     split at h
+    · cases h
+    split at h
     · have := key _ (by intro y hy; cases hy; rfl) _ (by intro y r hr; cases hr; rfl) h
       rw [this] at hn; cases hn
     · obtain ⟨acc, _, h⟩ := bind_eq_ok h
